@@ -649,6 +649,27 @@ fn run_op(c: &mut Case, t: &mut PciTransport, name: &str, args: &str, rd: &[u64]
             c.fail(format!("queue_set must select the queue first and enable it last: {}", tr.iter().map(|a| a.canon()).collect::<Vec<_>>().join(" ")));
         }
     }
+    if name == "queue_set" && r.is_ok() {
+        // what the device latches: the size and the three area addresses the caller passed, each written
+        // (the device keeps its own maximum as the queue size otherwise and indexes the rings with that)
+        let wrote = |off: usize, val: u64| tr.iter().any(|a| a.write && a.region == "P0" && a.offset == off && a.value == val);
+        let mut missing = vec![];
+        if !wrote(24, arg("size") & 0xffff) {
+            missing.push(format!("queue_size := {}", arg("size")));
+        }
+        for (nm, off, key) in [("queue_desc", 32usize, "desc"), ("queue_driver", 40, "drv"), ("queue_device", 48, "dev")] {
+            if !wrote(off, arg(key)) {
+                missing.push(format!("{} := {:#x}", nm, arg(key)));
+            }
+        }
+        if !missing.is_empty() {
+            let t = tr.iter().map(|a| a.canon()).collect::<Vec<_>>().join(" ");
+            c.fail(format!("queue_set did not write {}: {}", missing.join(", "), t));
+            for tag in ["C02", "C06"] {
+                c.fail(format!("[{}] PCI queue_set did not write {} (the device keeps its previous value, e.g. its maximum queue size, and reads the rings accordingly): {}", tag, missing.join(", "), t));
+            }
+        }
+    }
     if matches!(name, "max_queue_size" | "queue_used" | "notify") && !tr.is_empty() {
         if !(tr[0].write && tr[0].region == "P0" && tr[0].offset == OFF_QUEUE_SELECT) {
             c.fail(format!("{}: per-queue field accessed before queue_select was written", name));
